@@ -33,6 +33,34 @@ fn seed_of(id: &str) -> u64 {
 fn rng_for(id: &str) -> ChaCha12Rng { ChaCha12Rng::seed_from_u64(seed_of(id)) }
 fn deg(d: usize) -> ExtensionDegree { ExtensionDegree::try_from(d).unwrap() }
 
+// ---- behaviour digest: every result the crate hands back to these cases is folded into one hash (mode `fingerprint`); error values by variant only
+static OBS: std::sync::Mutex<Option<sha3::Sha3_256>> = std::sync::Mutex::new(None);
+fn obs(tag: &str, data: &[u8]) {
+    if let Ok(mut g) = OBS.lock() { if let Some(h) = g.as_mut() {
+        use digest::Digest;
+        h.update((tag.len() as u32).to_le_bytes()); h.update(tag.as_bytes()); h.update((data.len() as u64).to_le_bytes()); h.update(data);
+    } }
+}
+fn kind<E: std::fmt::Debug>(e: &E) -> String { format!("{:?}", e).split('(').next().unwrap_or("").to_string() }
+fn o_prove<R: RngCore + rand_core::CryptoRng>(t: &mut Transcript, st: &RangeStatement<P>, w: &RangeWitness, rng: &mut R) -> Result<RistrettoRangeProof, tari_bulletproofs_plus::errors::ProofError> {
+    let r = RangeProof::prove_with_rng(t, st, w, rng);
+    match &r { Ok(p) => obs("prove", &p.to_bytes()), Err(e) => obs("prove-err", kind(e).as_bytes()) }
+    r
+}
+fn o_verify_batch(t: &mut [Transcript], st: &[RangeStatement<P>], pr: &[RistrettoRangeProof], a: VerifyAction) -> Result<Vec<Option<ExtendedMask>>, tari_bulletproofs_plus::errors::ProofError> {
+    let r = RangeProof::verify_batch(t, st, pr, a);
+    match &r {
+        Ok(ms) => { obs("verify-ok", &(ms.len() as u64).to_le_bytes()); for m in ms { match m { Some(x) => { let b: Vec<u8> = x.blindings().map(|v| v.iter().flat_map(|s| s.to_bytes()).collect()).unwrap_or_default(); obs("mask", &b) } None => obs("mask-none", &[]) } } }
+        Err(e) => obs("verify-err", kind(e).as_bytes()),
+    }
+    r
+}
+fn o_from_bytes(b: &[u8]) -> Result<RistrettoRangeProof, tari_bulletproofs_plus::errors::ProofError> {
+    let r = RistrettoRangeProof::from_bytes(b);
+    match &r { Ok(p) => obs("decode", &p.to_bytes()), Err(e) => obs("decode-err", kind(e).as_bytes()) }
+    r
+}
+
 #[derive(Clone)]
 struct Member { statement: RangeStatement<P>, proof: RistrettoRangeProof, blindings: Vec<Scalar>, seeded: bool }
 
@@ -53,14 +81,14 @@ fn make_member(rng: &mut ChaCha12Rng, bits: usize, m: usize, cap: usize, d: usiz
     let seed_nonce = if seed && m == 1 { Some(Scalar::random(rng)) } else { None };
     let statement = RangeStatement::init(params, commitments, promises, seed_nonce).map_err(|e| format!("statement: {:?}", e))?;
     let witness = RangeWitness::init(openings).map_err(|e| format!("witness: {:?}", e))?;
-    let proof = RangeProof::prove_with_rng(&mut Transcript::new(ctx), &statement, &witness, rng).map_err(|e| format!("prove: {:?}", e))?;
+    let proof = o_prove(&mut Transcript::new(ctx), &statement, &witness, rng).map_err(|e| format!("prove: {:?}", e))?;
     Ok(Member { statement, proof, blindings: first_r, seeded: seed && m == 1 })
 }
 fn verify(ms: &[Member], action: VerifyAction, ctx: &'static [u8]) -> Result<Vec<Option<ExtendedMask>>, String> {
     let st: Vec<_> = ms.iter().map(|m| m.statement.clone()).collect();
     let pr: Vec<_> = ms.iter().map(|m| m.proof.clone()).collect();
     let mut tr: Vec<_> = ms.iter().map(|_| Transcript::new(ctx)).collect();
-    RangeProof::verify_batch(&mut tr, &st, &pr, action).map_err(|e| format!("{:?}", e))
+    o_verify_batch(&mut tr, &st, &pr, action).map_err(|e| format!("{:?}", e))
 }
 // flip one byte of the encoding at a position that keeps the encoding parseable (a point/scalar slot)
 fn tamper(p: &RistrettoRangeProof, slot: usize) -> Option<RistrettoRangeProof> {
@@ -73,7 +101,7 @@ fn tamper(p: &RistrettoRangeProof, slot: usize) -> Option<RistrettoRangeProof> {
     let is_scalar = s < d || s == d + 3 || s == d + 4;
     if is_scalar { b[1 + 32 * s..1 + 32 * s + 32].copy_from_slice(&repl); }
     else { let mut wide = [0u8; 64]; wide[..32].copy_from_slice(&repl); wide[32..].copy_from_slice(&repl); let pt = RistrettoPoint::from_uniform_bytes(&wide).compress(); b[1 + 32 * s..1 + 32 * s + 32].copy_from_slice(pt.as_bytes()); }
-    RangeProof::from_bytes(&b).ok()
+    o_from_bytes(&b).ok()
 }
 fn check_masks(ms: &[Member], res: &[Option<ExtendedMask>], recovering: bool) -> Result<(), String> {
     if res.len() != ms.len() { return Err(format!("{} results for {} members", res.len(), ms.len())); }
@@ -107,7 +135,7 @@ fn fam_corner_witnesses(tag: &str, out: &mut Vec<Case>) {
             let seed_nonce = if seed && m == 1 { Some(Scalar::random(&mut rng)) } else { None };
             let statement = RangeStatement::init(params, commitments, vec![None; m], seed_nonce).map_err(|e| format!("{:?}", e))?;
             let witness = RangeWitness::init(openings).map_err(|e| format!("{:?}", e))?;
-            let proof = RangeProof::prove_with_rng(&mut Transcript::new(b"ctx"), &statement, &witness, &mut rng)
+            let proof = o_prove(&mut Transcript::new(b"ctx"), &statement, &witness, &mut rng)
                 .map_err(|e| format!("prover refused an honest witness whose first commitment is the identity (value 0, zero blinding): {:?}", e))?;
             let mem = Member { statement, proof, blindings: vec![Scalar::ZERO; d], seeded: seed && m == 1 };
             for action in [VerifyAction::VerifyOnly, VerifyAction::RecoverAndVerify, VerifyAction::RecoverOnly] {
@@ -232,7 +260,7 @@ fn fam_batch(tag: &str, out: &mut Vec<Case>) {
                     tr.push(Transcript::new(if use_a { b"ctxA" } else { b"ctxB" }));
                 }
                 if let Some((x, y)) = swap { tr.swap(x, y); }
-                Ok(RangeProof::verify_batch(&mut tr, &st, &pr, VerifyAction::VerifyOnly).is_ok())
+                Ok(o_verify_batch(&mut tr, &st, &pr, VerifyAction::VerifyOnly).is_ok())
             };
             if !run(None)? { return Err(format!("batch of {} whose proofs match their own transcript contexts was rejected", k)); }
             // positions 0 (ctxB) and 1 (ctxA) have different contexts; so have k-1 / k-2 in general: find a differing pair at the end
@@ -249,10 +277,10 @@ fn fam_batch(tag: &str, out: &mut Vec<Case>) {
         let a = make_member(&mut rng, 4, 1, 1, 1, false, None, b"ctx")?;
         let st = vec![a.statement.clone(), a.statement.clone()]; let pr = vec![a.proof.clone(), a.proof.clone()];
         let mut t2 = vec![Transcript::new(b"ctx"), Transcript::new(b"ctx")];
-        if RangeProof::verify_batch(&mut [], &[] as &[RangeStatement<P>], &[] as &[RistrettoRangeProof], VerifyAction::VerifyOnly).is_ok() { return Err("empty batch accepted".into()); }
-        if RangeProof::verify_batch(&mut t2, &st[..1], &pr, VerifyAction::VerifyOnly).is_ok() { return Err("length mismatch (statements) accepted".into()); }
-        if RangeProof::verify_batch(&mut t2, &st, &pr[..1], VerifyAction::VerifyOnly).is_ok() { return Err("length mismatch (proofs) accepted".into()); }
-        if RangeProof::verify_batch(&mut t2[..1], &st, &pr, VerifyAction::VerifyOnly).is_ok() { return Err("length mismatch (transcripts) accepted".into()); }
+        if o_verify_batch(&mut [], &[] as &[RangeStatement<P>], &[] as &[RistrettoRangeProof], VerifyAction::VerifyOnly).is_ok() { return Err("empty batch accepted".into()); }
+        if o_verify_batch(&mut t2, &st[..1], &pr, VerifyAction::VerifyOnly).is_ok() { return Err("length mismatch (statements) accepted".into()); }
+        if o_verify_batch(&mut t2, &st, &pr[..1], VerifyAction::VerifyOnly).is_ok() { return Err("length mismatch (proofs) accepted".into()); }
+        if o_verify_batch(&mut t2[..1], &st, &pr, VerifyAction::VerifyOnly).is_ok() { return Err("length mismatch (transcripts) accepted".into()); }
         Ok(())
     })));
     // C08: equal and opposite defects in two members must not cancel
@@ -273,7 +301,7 @@ fn fam_batch(tag: &str, out: &mut Vec<Case>) {
                     let s = Scalar::from_canonical_bytes(sb).unwrap();
                     let s2 = if plus { s + delta } else { s - delta };
                     bytes[off..off + 32].copy_from_slice(s2.as_bytes());
-                    Member { proof: RangeProof::from_bytes(&bytes).unwrap(), ..m.clone() }
+                    Member { proof: o_from_bytes(&bytes).unwrap(), ..m.clone() }
                 };
                 let (a2, b2) = (shift(&a, true), shift(&b, false));
                 for v in [vec![a2.clone(), b2.clone()], vec![b2.clone(), a2.clone()], vec![a2.clone(), good.clone(), b2.clone()]] {
@@ -359,7 +387,7 @@ fn fam_codec(tag: &str, out: &mut Vec<Case>) {
                         for slot in 0..cnt { for bs in bad_scalars.iter() { let mut v = b.clone(); v[1 + 32 * slot..1 + 32 * slot + 32].copy_from_slice(bs); variants.push(v); } }
                     }
                     for v in variants {
-                        let got = catch_unwind(AssertUnwindSafe(|| RistrettoRangeProof::from_bytes(&v))).map_err(|_| format!("from_bytes panicked on {} bytes, first byte {}", v.len(), first))?;
+                        let got = catch_unwind(AssertUnwindSafe(|| o_from_bytes(&v))).map_err(|_| format!("from_bytes panicked on {} bytes, first byte {}", v.len(), first))?;
                         let exp = accept_ref(&v);
                         if got.is_ok() != exp { return Err(format!("from_bytes {} a string with first byte {} and {} elements (+{} bytes); exact acceptance set says {}", if got.is_ok() { "accepted" } else { "rejected" }, first, cnt, extra, exp)); }
                         if let Ok(p) = got {
@@ -374,7 +402,7 @@ fn fam_codec(tag: &str, out: &mut Vec<Case>) {
                 }
             }
         }
-        if RistrettoRangeProof::from_bytes(&[]).is_ok() { return Err("empty string accepted".into()); }
+        if o_from_bytes(&[]).is_ok() { return Err("empty string accepted".into()); }
         Ok(())
     })));
     let id = format!("{}:codec:serde-set", tag);
@@ -387,7 +415,7 @@ fn fam_codec(tag: &str, out: &mut Vec<Case>) {
                     v.extend(std::iter::repeat(0u8).take(32 * cnt + extra));
                     let mut ser = (v.len() as u64).to_le_bytes().to_vec();
                     ser.extend_from_slice(&v);
-                    let a = RistrettoRangeProof::from_bytes(&v);
+                    let a = o_from_bytes(&v);
                     let b = catch_unwind(AssertUnwindSafe(|| bincode::deserialize::<RistrettoRangeProof>(&ser))).map_err(|_| format!("serde deserialize panicked ({} elements)", cnt))?;
                     if a.is_ok() != b.is_ok() {
                         return Err(format!("serde form {} a byte string (first byte {}, {} elements, +{} bytes) that from_bytes {}", if b.is_ok() { "accepts" } else { "refuses" }, d, cnt, extra, if a.is_ok() { "accepts" } else { "refuses" }));
@@ -410,7 +438,7 @@ fn fam_codec(tag: &str, out: &mut Vec<Case>) {
             let b = mem.proof.to_bytes();
             let rounds = (bits * m).trailing_zeros() as usize;
             if b.len() != 1 + 32 * (5 + d + 2 * rounds) { return Err(format!("encoded length {} for bits={} m={} d={}", b.len(), bits, m, d)); }
-            let p2 = RistrettoRangeProof::from_bytes(&b).map_err(|e| format!("prover output rejected by from_bytes: {:?}", e))?;
+            let p2 = o_from_bytes(&b).map_err(|e| format!("prover output rejected by from_bytes: {:?}", e))?;
             if p2 != mem.proof { return Err("decode(encode(p)) != p".into()); }
         }
         Ok(())
@@ -421,12 +449,13 @@ fn fam_ctors(tag: &str, out: &mut Vec<Case>) {
     let id = format!("{}:ctors", tag);
     out.push((id, Box::new(move || {
         let pow2 = |x: usize| x != 0 && x & (x - 1) == 0;
-        for v in 0usize..=2048 { if ExtensionDegree::try_from(v).is_ok() != (1..=6).contains(&v) { return Err(format!("ExtensionDegree::try_from({}usize)", v)); } }
+        for v in 0usize..=2048 { obs("deg", &[ExtensionDegree::try_from(v).is_ok() as u8]); if ExtensionDegree::try_from(v).is_ok() != (1..=6).contains(&v) { return Err(format!("ExtensionDegree::try_from({}usize)", v)); } }
         for v in [usize::MAX, usize::MAX - 254, 1 << 32, (1 << 32) + 3, 65537 + 1] { if ExtensionDegree::try_from(v).is_ok() { return Err(format!("ExtensionDegree::try_from({}usize) accepted", v)); } }
         for v in 0u8..=255 { let r = ExtensionDegree::try_from(v); if r.is_ok() != (1..=6).contains(&v) { return Err(format!("ExtensionDegree::try_from({}u8)", v)); } if let Ok(x) = r { if x as u8 != v { return Err(format!("try_from({}u8) gave {:?}", v, x)); } } }
         let pc = create_pedersen_gens_with_extension_degree(deg(2));
         for bits in 0usize..=130 { for cap in [0usize, 1, 2, 3, 4, 5, 8, 16, 17, 64, 100, 128, 130] {
             let ok = RangeParameters::init(bits, cap, pc.clone());
+            obs("params", &[ok.is_ok() as u8]);
             let exp = pow2(bits) && bits <= 64 && pow2(cap);
             if ok.is_ok() != exp { return Err(format!("RangeParameters::init({}, {})", bits, cap)); }
             if let Ok(p) = ok { if p.bit_length() != bits || p.max_aggregation_factor() != cap { return Err("RangeParameters::init adjusted its arguments".into()); } }
@@ -435,6 +464,7 @@ fn fam_ctors(tag: &str, out: &mut Vec<Case>) {
         let c = params.pc_gens().commit(&Scalar::ONE, &[Scalar::ONE, Scalar::ONE]).map_err(|e| format!("{:?}", e))?;
         for n in 0usize..=17 { for np in [n, n + 1, n.saturating_sub(1)] { for seed in [false, true] {
             let r = RangeStatement::init(params.clone(), vec![c; n], vec![None; np], if seed { Some(Scalar::ONE) } else { None });
+            obs("statement", &[r.is_ok() as u8]);
             let exp = pow2(n) && np == n && n <= 8 && (!seed || n == 1);
             if r.is_ok() != exp { return Err(format!("RangeStatement::init with {} commitments, {} promises, seed {}", n, np, seed)); }
         } } }
@@ -443,6 +473,7 @@ fn fam_ctors(tag: &str, out: &mut Vec<Case>) {
             let mut shape = vec![a]; if b < 9 { shape.push(b); if cc < 9 { shape.push(cc); } }
             let ops: Vec<_> = shape.iter().map(|&n| CommitmentOpening::new(1, vec![Scalar::ONE; n])).collect();
             let r = RangeWitness::init(ops);
+            obs("witness", &[r.is_ok() as u8]);
             let exp = (1..=6).contains(&shape[0]) && shape.iter().all(|&n| n == shape[0]);
             if r.is_ok() != exp { return Err(format!("RangeWitness::init with opening shape {:?}", shape)); }
             if let Ok(w) = r { if w.extension_degree as usize != shape[0] { return Err(format!("opening shape {:?} accepted with extension degree {:?}", shape, w.extension_degree)); } }
@@ -476,10 +507,10 @@ fn fam_prover(tag: &str, out: &mut Vec<Case>) {
                 let ops: Vec<_> = (0..m).map(|j| CommitmentOpening::new(vals[j], match wd { Some(n) => vec![Scalar::ONE; n], None => rs[j].clone() })).collect();
                 let w = match RangeWitness::init(ops) { Ok(w) => w, Err(_) => return Ok(false) };
                 let mut r2 = ChaCha12Rng::seed_from_u64(1);
-                let res = catch_unwind(AssertUnwindSafe(|| RangeProof::prove_with_rng(&mut Transcript::new(b"ctx"), &st, &w, &mut r2))).map_err(|_| "prove_with_rng panicked".to_string())?;
+                let res = catch_unwind(AssertUnwindSafe(|| o_prove(&mut Transcript::new(b"ctx"), &st, &w, &mut r2))).map_err(|_| "prove_with_rng panicked".to_string())?;
                 if let Ok(p) = &res {
                     let mut t = [Transcript::new(b"ctx")];
-                    RangeProof::verify_batch(&mut t, &[st.clone()], &[p.clone()], VerifyAction::VerifyOnly).map_err(|e| format!("the prover returned a proof that does not verify: {:?}", e))?;
+                    o_verify_batch(&mut t, &[st.clone()], &[p.clone()], VerifyAction::VerifyOnly).map_err(|e| format!("the prover returned a proof that does not verify: {:?}", e))?;
                 }
                 Ok(res.is_ok())
             };
@@ -501,7 +532,7 @@ fn fam_prover(tag: &str, out: &mut Vec<Case>) {
                 for _ in 0..extra { ops.push(CommitmentOpening::new(1, base_r[0].clone())); }
                 if let Ok(w) = RangeWitness::init(ops) {
                     let mut r2 = ChaCha12Rng::seed_from_u64(2);
-                    let res = catch_unwind(AssertUnwindSafe(|| RangeProof::prove_with_rng(&mut Transcript::new(b"ctx"), &st, &w, &mut r2))).map_err(|_| "prove_with_rng panicked on a witness with too many openings".to_string())?;
+                    let res = catch_unwind(AssertUnwindSafe(|| o_prove(&mut Transcript::new(b"ctx"), &st, &w, &mut r2))).map_err(|_| "prove_with_rng panicked on a witness with too many openings".to_string())?;
                     if res.is_ok() { return Err(format!("a witness with {} openings was accepted for {} commitments", m + extra, m)); }
                 }
             }
@@ -511,7 +542,7 @@ fn fam_prover(tag: &str, out: &mut Vec<Case>) {
                 let ops: Vec<_> = (0..m - 1).map(|j| CommitmentOpening::new(base_v[j], base_r[j].clone())).collect();
                 if let Ok(w) = RangeWitness::init(ops) {
                     let mut r2 = ChaCha12Rng::seed_from_u64(3);
-                    let res = catch_unwind(AssertUnwindSafe(|| RangeProof::prove_with_rng(&mut Transcript::new(b"ctx"), &st, &w, &mut r2))).map_err(|_| "prove_with_rng panicked on a witness with too few openings".to_string())?;
+                    let res = catch_unwind(AssertUnwindSafe(|| o_prove(&mut Transcript::new(b"ctx"), &st, &w, &mut r2))).map_err(|_| "prove_with_rng panicked on a witness with too few openings".to_string())?;
                     if res.is_ok() { return Err(format!("a witness with {} openings was accepted for {} commitments", m - 1, m)); }
                 }
             }
@@ -528,7 +559,7 @@ fn fam_panics(tag: &str, out: &mut Vec<Case>) {
         let probe = |st: Vec<RangeStatement<P>>, pr: Vec<RistrettoRangeProof>, what: String| -> Result<(), String> {
             for action in [VerifyAction::VerifyOnly, VerifyAction::RecoverAndVerify, VerifyAction::RecoverOnly] {
                 let mut t: Vec<_> = st.iter().map(|_| Transcript::new(b"ctx")).collect();
-                catch_unwind(AssertUnwindSafe(|| { let _ = RangeProof::verify_batch(&mut t, &st, &pr, action); })).map_err(|_| format!("verify_batch panicked: {}", what))?;
+                catch_unwind(AssertUnwindSafe(|| { let _ = o_verify_batch(&mut t, &st, &pr, action); })).map_err(|_| format!("verify_batch panicked: {}", what))?;
             }
             Ok(())
         };
@@ -539,7 +570,7 @@ fn fam_panics(tag: &str, out: &mut Vec<Case>) {
             let mut b = bytes.clone(); b[0] = tag_b;
             let dd = bytes[0] as usize; let pt = bytes[1 + 32 * dd..33 + 32 * dd].to_vec(); /* the encoding of A: a valid non-identity point */
             if add < 0 { b.truncate(b.len() - 32 * (-add) as usize); } else { for _ in 0..add { b.extend_from_slice(&pt); } }
-            if let Ok(p) = RistrettoRangeProof::from_bytes(&b) { probe(vec![a.statement.clone()], vec![p], format!("tag {} rounds {:+}", tag_b, add / 2))?; }
+            if let Ok(p) = o_from_bytes(&b) { probe(vec![a.statement.clone()], vec![p], format!("tag {} rounds {:+}", tag_b, add / 2))?; }
         } }
         // mixed capacities / aggregation in one batch, proof of another statement
         let b2 = make_member(&mut rng, 8, 1, 8, 2, true, None, b"ctx")?;
@@ -599,6 +630,7 @@ fn fam_gens(tag: &str, out: &mut Vec<Case>) {
             let p = RangeParameters::init(bits, cap, create_pedersen_gens_with_extension_degree(deg(6))).map_err(|e| format!("{:?}", e))?;
             let big = RangeParameters::init(bits, cap * 4, create_pedersen_gens_with_extension_degree(deg(6))).map_err(|e| format!("{:?}", e))?;
             let (g, h): (Vec<_>, Vec<_>) = (p.gi_base_iter().cloned().collect(), p.hi_base_iter().cloned().collect());
+            for x in g.iter().chain(h.iter()).chain(p.g_bases().iter()) { obs("gen", x.compress().as_bytes()); }
             if g.len() != bits * cap || h.len() != bits * cap { return Err("wrong number of vector generators".into()); }
             let gb: Vec<_> = big.gi_base_iter().cloned().collect(); let hb: Vec<_> = big.hi_base_iter().cloned().collect();
             if gb[..g.len()] != g[..] || hb[..h.len()] != h[..] { return Err(format!("generators depend on the capacity (bits {}, capacity {} vs {})", bits, cap, cap * 4)); }
@@ -679,7 +711,7 @@ fn fam_nonces(tag: &str, out: &mut Vec<Case>) {
                 let st = RangeStatement::init(params, vec![c], vec![None], sn).map_err(|e| format!("{:?}", e))?;
                 let w = RangeWitness::init(vec![CommitmentOpening::new(1, r.clone())]).map_err(|e| format!("{:?}", e))?;
                 let mut prng = ChaCha12Rng::seed_from_u64(seed);
-                let proof = RangeProof::prove_with_rng(&mut Transcript::new(b"ctx"), &st, &w, &mut prng).map_err(|e| format!("{:?}", e))?;
+                let proof = o_prove(&mut Transcript::new(b"ctx"), &st, &w, &mut prng).map_err(|e| format!("{:?}", e))?;
                 Ok(Member { statement: st, proof, blindings: r, seeded })
             };
             let (p1, p2, p1b) = (mk(1)?, mk(2)?, mk(1)?);
@@ -715,7 +747,7 @@ fn fam_nonces(tag: &str, out: &mut Vec<Case>) {
             let run = |rv: &Vec<Scalar>| -> Result<Vec<u8>, String> {
                 let w = RangeWitness::init(vec![CommitmentOpening::new(7, rv.clone())]).map_err(|e| format!("{:?}", e))?;
                 let mut bad = ConstRng(fill);
-                Ok(RangeProof::prove_with_rng(&mut Transcript::new(b"ctx"), &st, &w, &mut bad).map_err(|e| format!("{:?}", e))?.to_bytes())
+                Ok(o_prove(&mut Transcript::new(b"ctx"), &st, &w, &mut bad).map_err(|e| format!("{:?}", e))?.to_bytes())
             };
             let (b1, b2) = (run(&r)?, run(&r2)?);
             if run(&r)? != b1 { return Err("identical runs are not reproducible under a constant RNG".into()); }
@@ -763,7 +795,7 @@ fn fam_alpha(tag: &str, out: &mut Vec<Case>) {
             let w = RangeWitness::init(vec![CommitmentOpening::new(v, r)]).map_err(|e| format!("{:?}", e))?;
             for seed in [1u64, 2, 3] {
                 let mut prng = ChaCha12Rng::seed_from_u64(seed);
-                let proof = RangeProof::prove_with_rng(&mut Transcript::new(b"ctx"), &st, &w, &mut prng).map_err(|e| format!("{:?}", e))?;
+                let proof = o_prove(&mut Transcript::new(b"ctx"), &st, &w, &mut prng).map_err(|e| format!("{:?}", e))?;
                 if alpha_part(&st, &proof, v)? == RistrettoPoint::identity() { return Err("two blinding components of A are the same nonce (alpha_1 == alpha_2)".into()); }
             }
         }
@@ -782,7 +814,7 @@ fn fam_alpha(tag: &str, out: &mut Vec<Case>) {
         let run = |promise: Option<u64>| -> Result<P, String> {
             let st = RangeStatement::init(params.clone(), vec![c], vec![promise], None).map_err(|e| format!("{:?}", e))?;
             let mut bad = ConstRng(0x11);
-            let proof = RangeProof::prove_with_rng(&mut Transcript::new(b"ctx"), &st, &w, &mut bad).map_err(|e| format!("{:?}", e))?;
+            let proof = o_prove(&mut Transcript::new(b"ctx"), &st, &w, &mut bad).map_err(|e| format!("{:?}", e))?;
             alpha_part(&st, &proof, v - promise.unwrap_or(0))
         };
         let (p0, p1, p2) = (run(None)?, run(Some(5))?, run(Some(6))?);
@@ -817,6 +849,25 @@ fn main() {
     if args.len() < 3 { eprintln!("usage: bpp-replay search <Cxx> | run <Cxx> <case-id>"); std::process::exit(2); }
     std::panic::set_hook(Box::new(|_| {}));
     let prop = args[2].as_str();
+    if args[1] == "fingerprint" {
+        // digest of everything the crate returns on the directed inputs of this property, of completeness and of the prover matrix (fixed seeds)
+        std::env::remove_var("VERIF_SEED");
+        *OBS.lock().unwrap() = Some({ use digest::Digest; sha3::Sha3_256::new() });
+        let mut n = 0usize;
+        for fam in [prop, "C01", "C06", "C15", "C17"] {
+            if fam != prop && [prop] == [fam] { continue; }
+            for (id, f) in families(fam).iter() {
+                n += 1;
+                let r = catch_unwind(AssertUnwindSafe(|| f()));
+                let verdict = match r { Ok(Ok(())) => "pass".to_string(), Ok(Err(_)) => "fail".to_string(), Err(_) => "panic".to_string() };
+                obs(id, verdict.as_bytes());
+            }
+        }
+        let d = { use digest::Digest; OBS.lock().unwrap().take().unwrap().finalize() };
+        let hex: String = d.iter().map(|b| format!("{:02x}", b)).collect();
+        println!("{{\"property\":\"{}\",\"fingerprint\":\"{}\",\"cases_run\":{}}}", prop, hex, n);
+        return;
+    }
     let cases = families(prop);
     let only: Option<&String> = if args[1] == "run" { args.get(3) } else { None };
     let mut n = 0usize;
